@@ -41,19 +41,23 @@ class Inv:
 
     def value(self, ty, owner="param", depth=0):
         """abstract value of the invariant of type `ty` (None if the type is not supported as a root parameter)"""
+        ty0 = ty.strip()
         ty = norm_ty(ty)
-        key = (ty, owner)
+        key = (ty0, owner, depth == 0)
         if key in self.cache:
             return self.cache[key]
-        v = self._value(ty, owner, depth)
+        v = self._value(ty, owner, depth, ty0)
         self.cache[key] = v
         return v
 
-    def _value(self, ty, owner, depth):
+    def _value(self, ty, owner, depth, ty0=None):
         from absint import INT_TYPES
+        ty0 = ty0 or ty
         if ty in INT_TYPES:
             r = INT_TYPES[ty]
             return I(r[0], r[1])
+        if self.F.adt_path(ty) != ty and self.F.adt_of(ty) is not None and "<" not in ty:
+            ty = self.F.adt_path(ty)
         if ty in self.fe_adt:
             return self.fe(self.FE_BITS.get(owner, self.FE_BITS["param"]))
         if ty in self.sc_adt:
@@ -62,10 +66,10 @@ class Inv:
             return ("st", (("arr", (I(0, 255),) * 31 + (I(0, 127),)),))
         if ty == "subtle::Choice":
             return ("st", (I(0, 1),))
-        m = re.match(r"^\[(.*); (\d+)\]$", ty)
+        m = re.match(r"^\[(.*); ([\w:]+)\]$", ty)
         if m:
-            n = int(m.group(2))
-            if n > 4096 or depth > 6:
+            n = self.F.named_len(m.group(2))
+            if n is None or n > 4096 or depth > 6:
                 return None
             e = self.value(m.group(1), owner, depth + 1)
             return ("arr", (e,) * n) if e is not None else None
@@ -76,8 +80,16 @@ class Inv:
                 return ("st", ())
             vs = [self.value(p, owner, depth + 1) for p in parts]
             return ("st", tuple(vs)) if all(v is not None for v in vs) else None
-        base = re.sub(r"<.*", "", ty)
-        a = self.F.adts.get(base)
+        m = re.match(r"^&(mut )?\[([^;]*)\]$", ty0)
+        if m and depth == 0:
+            e = self.value(m.group(2), owner, depth + 1)
+            return ("__coll_slice", e if (e is not None and e[0] != "__coll_slice") else TOP, 2**20)
+        if ty0.startswith("&") and depth > 0:
+            return TOP      # references nested inside aggregates: opaque
+        base = self.F.adt_path(ty)
+        a = self.F.adt_of(ty)
+        if a is None and "::" in base and not base.startswith("<") and base.split("::")[0] not in self.F.crates:
+            return TOP      # ADT of an external crate (ed25519::Signature, pkcs8 documents, digest states): opaque, only reachable through its own API
         if a and a["kind"] == "Struct" and depth < 8:
             targs = []
             mg = re.match(r"^[^<]*<(.*)>$", ty)
@@ -209,7 +221,7 @@ class Driver:
         st = f.get("self_ty") or ""
         if p.endswith("RistrettoPoint::double_and_compress_batch"):
             return {0: self.coll_iter(rp)}
-        if not getattr(self, "all_generic_roots", False):
+        if not getattr(self, "all_generic_roots", True):
             if p.endswith("MontgomeryPoint::mul_bits_be"):
                 return {1: self.coll_iter(I(0, 1), 300)}
             return None
@@ -219,9 +231,9 @@ class Driver:
         if nm == "optional_multiscalar_mul" and tr.endswith("traits::VartimeMultiscalarMul"):
             pt = rp if "Ristretto" in st else ep
             opt = ("en", ((0, ()), (1, (pt,))))
-            return {0: self.coll_iter(sc), 1: self.coll_iter(opt)}
+            return {0: self.coll_iter(sc), 1: ("__coll_vals", opt, 2**20)}
         if nm in ("sum", "product") and re.search(r"iter::(Sum|Product)<T>$", tr):
-            el = sc if st.endswith("Scalar") else (rp if "Ristretto" in st else ep)
+            el = inv.value(st) or (sc if st.endswith("Scalar") else (rp if "Ristretto" in st else ep))
             return {0: self.coll_iter(el)}
         if p.endswith("scalar::Scalar::batch_invert"):
             return {0: self.coll_slice(sc)}
@@ -229,13 +241,22 @@ class Driver:
             return {1: self.coll_iter(I(0, 1), 300)}
         return None
 
-    def run_root(self, f, overrides=None, check_ret=True):
+    def run_root(self, f, overrides=None, check_ret=True, tyenv=None):
         fv = view(self.F, f)
+        if tyenv is None and f.get("in_trait") and (f.get("generics") or [None])[0] == "Self":
+            # provided (default) trait method: analysed once per implementing type
+            impls = sorted({norm_ty(i["self_ty"]) for i in self.F.impls if i.get("trait") == f["in_trait"] and i.get("self_ty")})
+            r = None
+            for T in impls:
+                r = self.run_root(f, overrides, check_ret, {"Self": T})
+            if impls:
+                return r
         if overrides is None:
             overrides = self.generic_overrides(f)
         vals = []
+        from absint import subst_ty
         for i in range(fv.nargs):
-            ty = fv.locals[i + 1]["ty"]
+            ty = subst_ty(fv.locals[i + 1]["ty"], tyenv)
             v = None
             if overrides and i in overrides:
                 v = overrides[i]
@@ -247,13 +268,16 @@ class Driver:
             vals.append(v)
         t0 = time.time()
         try:
-            ret, root = self.ip.run_root(f, vals, colls=True)
+            ret, root = self.ip.run_root(f, vals, colls=True, tyenv=tyenv)
         except Budget as e:
             self.errors.append((f, "budget: %s" % e))
             return None
         except RecursionError:
             self.errors.append((f, "recursion limit"))
             return None
+        for c in getattr(self.ip, "cutoffs", []):
+            self.errors.append((f, "call depth cut-off at %s" % c))
+        self.ip.cutoffs = []
         self.roots_run.append((f, time.time() - t0))
         # invariant of the returned value and of values written through &mut parameters
         out_ty = f.get("output") or fv.locals[0]["ty"]
